@@ -32,7 +32,8 @@ NeedKeys(n) == {p \in ParamNames(n) : ~Configured(n, p) /\ ~HasDefault(n, p)}
 
 SerOf(i, n, d, c, r) ==
     LET ok == r.st = "ok"
-        c2 == IF ok THEN r.ctx ELSE c
+        c2 == r.ctx        \* also for a failing node: what it wrote before failing is there (a rename writes its
+                           \* destination before it fails to remove a source that is not in the context)
         d2 == IF ok THEN r.data ELSE d
         resolved == r.st \notin {"type", "resolve"}
     IN [t |-> "ser", node |-> i, status |-> IF ok THEN "succeeded" ELSE "error",
@@ -114,8 +115,11 @@ Untraced == Init /\ [][Next]_vars
 (***************************** C07: SER truthfulness (spec level) ********)
 \* digest chaining: what node k+1 reads is what node k left
 Chain == \A j \in 1..(Len(Sers) - 1) : Sers[j].post = Sers[j + 1].pre
-\* a failing node leaves the payload untouched in the model
-ErrorKeepsPayload == \A j \in 1..Len(Sers) : Sers[j].status = "error" => Sers[j].pre = Sers[j].post
+\* a failing node leaves the data untouched; its context may already carry what the node wrote before it failed
+\* (only a rename whose source key is configured but not in the context does so in this library)
+ErrorKeepsPayload == \A j \in 1..Len(Sers) : Sers[j].status = "error" =>
+                        /\ Sers[j].pre.data = Sers[j].post.data
+                        /\ (Sers[j].kind # "Rename" => Sers[j].pre = Sers[j].post)
 \* required_keys_present is PASS (no missing key) on every node that got past resolution
 ResolvedHasKeys == \A j \in 1..Len(Sers) : Sers[j].resolved /\ Sers[j].inTypeOk => Sers[j].missing = {}
 
